@@ -397,6 +397,7 @@ class Builtins:
         if c is None and isinstance(pos[0], SList) and len(pos) == 1 and not kw:
             src = pos[0]
             out = SList(None, length=list_len(src), fresh=True, label="enumerate")
+            out.ghost["enumerate_of"] = src
             out.elem = lambda j, src=src: (SInt(to_term_int(j), 0, None), src.elem(j) if src.elem is not None else self.cx.opaque("elem"))
             return out
         if c is None:
@@ -432,6 +433,36 @@ class Builtins:
             self.cx.assume(to_term_int(n) <= to_term_int(list_len(seq)))
             return SList(None, length=n, elem=seq.elem, fresh=True, label="filtered")
         raise Unsupported("filter over " + type(seq).__name__)
+
+    def chars_of(self, sv: SStr) -> SList:
+        """iteration view of a symbolic str (1-character strings) or bytes (ints)"""
+        t = sv.term
+        l = SList(None, length=SInt(z3.Length(t), 0, None), fresh=True, label="chars")
+        if sv.kind == "bytes":
+            l.elem = lambda j, t=t: SInt(z3.StrToCode(z3.SubString(t, to_term_int(j), 1)), 0, 255)
+        else:
+            l.elem = lambda j, t=t: SStr(z3.SubString(t, to_term_int(j), 1))
+        l.ghost["chars_of"] = sv
+        return l
+
+    def f_bytes(self, pos, kw, fr):
+        if not pos:
+            return b""
+        v = pos[0]
+        if isinstance(v, SList) and v.concrete and len(v.items) == 1:
+            x = v.items[0]
+            if isinstance(x, int):
+                return bytes([x])
+            if isinstance(x, SInt):
+                return SStr(z3.StrFromCode(to_term_int(x)), "bytes")
+        if isinstance(v, (bytes, SStr)):
+            return v
+        if isinstance(v, SObj):
+            res = self.it.index.resolve_method(v.cls, "__bytes__")
+            if res:
+                kind, ci, fn = res
+                return self.it.call_repo(f"{ci.module.rel}:{ci.name}.__bytes__", [], {}, self_obj=v)
+        raise Unsupported("bytes(...)")
 
     def f_sum(self, pos, kw, fr):
         c = self.it.iter_concrete(pos[0])
@@ -575,7 +606,7 @@ class Builtins:
         which makes the whole comprehension raise non-deterministically)."""
         cx = self.cx
         if g.ifs and not sum_filter:
-            raise Unsupported("filtered comprehension over an abstract sequence")
+            return self.abstract_filter(e, fr, src, g)
         n = to_term_int(list_len(src))
         jname = cx._name("gj")
         j = z3.Int(jname)
@@ -631,6 +662,31 @@ class Builtins:
             if cx.choose("comprehension-element-raises"):
                 raise PyRaise(SExc(raised[0], opaque=True))
         return self._generalise(val, j, sub, src)
+
+    def abstract_filter(self, e, fr, src: SList, g):
+        """[elt for x in src if cond] over an abstract list: the result is the sub-sequence selected by `cond`; the engine
+        records, as functions of the index, the keep-condition and whether the element expression is the element itself."""
+        cx = self.cx
+        n = to_term_int(list_len(src))
+        j = z3.Int(cx._name("fj"))
+        saved = dict(fr.locals)
+        mark_pos = cx.pos
+        cx.ghost["generic"] = cx.ghost.get("generic", 0) + 1
+        try:
+            elem = src.elem(SInt(j)) if src.elem else cx.opaque("elem")
+            self.it.assign(g.target, elem, fr)
+            conds = [truth(cx, self.it.ev(c, fr)) for c in g.ifs]
+            val = self.it.ev(e.elt, fr)
+        finally:
+            cx.ghost["generic"] -= 1
+        if cx.pos != mark_pos:
+            raise Unsupported("symbolic branch inside a filtered comprehension")
+        self._restore(fr, saved, g)
+        keep = z3.And(*[c if not isinstance(c, bool) else z3.BoolVal(c) for c in conds])
+        out = SList(None, length=cx.int("n_kept", lo=0), fresh=True, label="filtered")
+        cx.assume(to_term_int(out.length) <= n)
+        out.ghost["filter_of"] = {"src": src, "index": j, "keep": keep, "elt": val, "elem_at_index": elem}
+        return out
 
     def _generalise(self, val, j, sub, src: SList):
         """turn the generic element value into a list value"""
@@ -915,6 +971,16 @@ class Builtins:
             if isinstance(k, SObj) and k.cls == "slice":
                 return self.getslice(l, k.fields.get("start"), k.fields.get("stop"), k.fields.get("step"))
             return self.getitem(l, k)
+        if short == "append" and "tuple_seqs" in l.ghost:
+            cx.log_write(l, "@items", pos[0])
+            x = pos[0]
+            seqs = l.ghost["tuple_seqs"]
+            if not (isinstance(x, tuple) and len(x) == len(seqs)):
+                raise Unsupported("append of a non-matching tuple to a tuple list")
+            from .ops import str_term
+            l.ghost["tuple_seqs"] = [z3.Concat(sq, z3.Unit(str_term(c))) for sq, c in zip(seqs, x)]
+            l.length = SInt(z3.Length(l.ghost["tuple_seqs"][0]), 0, None)
+            return None
         if short == "append":
             cx.log_write(l, "@items", pos[0])
             L.append(cx, l, pos[0])
